@@ -117,11 +117,12 @@ func (c *baseTrafficShapingController) performCheckingForConcurrencyMetric(arg i
 	specificItem := c.specificItems
 	initConcurrency := int64(0)
 	concurrencyPtr := c.metric.ConcurrencyCounter.AddIfAbsent(arg, &initConcurrency)
-	if concurrencyPtr == nil {
-		// First to access this arg
-		return nil
+	concurrency := int64(0)
+	if concurrencyPtr != nil {
+		concurrency = atomic.LoadInt64(concurrencyPtr)
 	}
-	concurrency := atomic.LoadInt64(concurrencyPtr)
+	// A value seen for the first time has no request in flight yet, but it is
+	// still subject to the threshold (which may be zero).
 	concurrency++
 	if specificConcurrency, existed := specificItem[arg]; existed {
 		if concurrency <= specificConcurrency {
